@@ -16,7 +16,51 @@ open MdIt.Block
 #check @blockquote_silent_view
 #check @list_silent_view
 #check @silent_same_view_rule
+#check @runChain_same_view
 #check @testRules_same_view
+#check @sigma_in_line
+#check @sigma_of_entry
+#check @sigma_mono
+#check @getLinesGo_sim
+#check @hr_sim
+#check @heading_sim
+#check @code_sim
+#check @fence_sim
+#check @lazyScan_sim
+#check @paragraph_sim
+#check @lheading_sim
+#check @reference_sim
+#check @bqRewrite_sim
+#check @bqScan_sim
+#check @blockquote_sim
+#check @itemRewrite_sim
+#check @listItemBody_sim
+#check @listItem_sim
+#check @listContinue_sim
+#check @listLoop_sim
+#check @markTight_reloc
+#check @tightenItems_reloc
+#check @list_sim
+#check @runChain_sim
+#check @afterChain_sim
+#check @tokLoop_sim
+#check @testRules_sim
+#check @runRule_sim
+#check @tokenize_sim
+#check @linesT_flat_of_shape
+#check @fresh_prefixed_reads
+#check @bqScan_prefixed
+#check @front_rejects
+#check @runChain_front
+#check @tokenize_fresh_end
+#check @linesOk_linesT
+#check @linesT_prefixQuote
+#check @splitLines_prefixQuote
+#check @byteLen_prefixQuote
+#check @blockquote_on_prefixed
+#check @sigma_spec
+#check @tokLoop_one
+#check @quote_commutes
 #print axioms findIndent_tabfree
 #print axioms quote_view
 #print axioms quote_view_shift
@@ -33,4 +77,48 @@ open MdIt.Block
 #print axioms blockquote_silent_view
 #print axioms list_silent_view
 #print axioms silent_same_view_rule
+#print axioms runChain_same_view
 #print axioms testRules_same_view
+#print axioms sigma_in_line
+#print axioms sigma_of_entry
+#print axioms sigma_mono
+#print axioms getLinesGo_sim
+#print axioms hr_sim
+#print axioms heading_sim
+#print axioms code_sim
+#print axioms fence_sim
+#print axioms lazyScan_sim
+#print axioms paragraph_sim
+#print axioms lheading_sim
+#print axioms reference_sim
+#print axioms bqRewrite_sim
+#print axioms bqScan_sim
+#print axioms blockquote_sim
+#print axioms itemRewrite_sim
+#print axioms listItemBody_sim
+#print axioms listItem_sim
+#print axioms listContinue_sim
+#print axioms listLoop_sim
+#print axioms markTight_reloc
+#print axioms tightenItems_reloc
+#print axioms list_sim
+#print axioms runChain_sim
+#print axioms afterChain_sim
+#print axioms tokLoop_sim
+#print axioms testRules_sim
+#print axioms runRule_sim
+#print axioms tokenize_sim
+#print axioms linesT_flat_of_shape
+#print axioms fresh_prefixed_reads
+#print axioms bqScan_prefixed
+#print axioms front_rejects
+#print axioms runChain_front
+#print axioms tokenize_fresh_end
+#print axioms linesOk_linesT
+#print axioms linesT_prefixQuote
+#print axioms splitLines_prefixQuote
+#print axioms byteLen_prefixQuote
+#print axioms blockquote_on_prefixed
+#print axioms sigma_spec
+#print axioms tokLoop_one
+#print axioms quote_commutes
